@@ -33,7 +33,9 @@ var (
 	levels      = []string{"strict", "permissive", "audit", "skip"}
 )
 
-func isOCIEntry(e string) bool { return e == "verifier.Verify" || e == "SkipVerify" || e == "notation.Verify" }
+func isOCIEntry(e string) bool {
+	return e == "verifier.Verify" || e == "SkipVerify" || e == "notation.Verify"
+}
 
 // Cfg is one way of constructing a verifier.
 type Cfg struct {
